@@ -469,3 +469,69 @@ def notifier_snapshot(ctx, res):
     if not seen:
         res.oblige(True, "call_notifiers", "", "")
     res.floor(1)
+
+
+# ---------------------------------------------------------------------------
+# C02.sink-contained
+
+@rule("C02.sink-contained", ["C02", "C19"],
+      "the default exception sink cannot itself raise: everything that "
+      "formats user objects happens inside a try that swallows errors")
+def sink_contained(ctx, res):
+    repo = get_pyrepo(ctx)
+    mod = repo.module(TN)
+    fn = repo.func(TN, "NotificationExceptionHandler._log_exception")
+    ps = [a.arg for a in fn.args.args][1:]       # object, trait_name, old, new
+    user = {ps[0], ps[2], ps[3]}
+    parents = {}
+    for p in ast.walk(fn):
+        for c in ast.iter_child_nodes(p):
+            parents[id(c)] = p
+
+    def contained(node):
+        """inside the body of a try with a broad handler, or inside the
+        emergency branch for recursion-depth errors (accepted idiom: that
+        branch is the last resort when even logging cannot work)"""
+        p = parents.get(id(node))
+        child = node
+        while p is not None:
+            if isinstance(p, ast.Try) and any(child is s for s in p.body):
+                if any(h.type is None or norm(h.type) in ("Exception",
+                                                          "BaseException")
+                       for h in p.handlers):
+                    return True
+            if isinstance(p, ast.If) and "maximum recursion depth" in norm(p.test) \
+                    and any(child is s for s in p.body):
+                return True
+            child = p
+            p = parents.get(id(p))
+        return False
+    n = 0
+    for x in ast.walk(fn):
+        formats = False
+        if isinstance(x, ast.BinOp) and isinstance(x.op, ast.Mod):
+            formats = True
+        if isinstance(x, ast.JoinedStr):
+            formats = True
+        if isinstance(x, ast.Call) and norm(x.func) in ("str", "repr", "format") \
+                or isinstance(x, ast.Call) and isinstance(x.func, ast.Attribute) \
+                and x.func.attr == "format":
+            formats = True
+        if not formats:
+            continue
+        names = {n2.id for n2 in ast.walk(x) if isinstance(n2, ast.Name)}
+        if not (names & user):
+            continue
+        n += 1
+        res.instance(f"_log_exception:format@{x.lineno - fn.lineno}",
+                     mod.loc(x))
+        res.oblige(contained(x), "_log_exception:uncontained-format",
+                   mod.loc(x),
+                   f"`{norm(x)[:70]}` converts user objects to text outside "
+                   f"the guarding try: a raising __str__/__repr__ escapes "
+                   f"from the exception sink, the remaining handlers are "
+                   f"skipped and the assignment raises")
+    if n == 0:
+        raise AnalysisError("_log_exception: no formatting of user objects "
+                            "found")
+    res.floor(1)
